@@ -149,10 +149,10 @@ Theorem C04_left_join_keys_unique : forall a rest res,
   d_join JLeft None (a :: rest) = Ok res -> uniq_keys (d_rows res) = true.
 Proof. exact left_join_keys_unique. Qed.
 
-Theorem C04_inner_join_keys_unique : forall a b res,
-  first_is_reference (o_hdr a) [o_hdr b] -> wf_operand a -> wf_operand b ->
-  d_join JInner None [a; b] = Ok res -> uniq_keys (d_rows res) = true.
-Proof. exact inner_join_keys_unique. Qed.
+Theorem C04_inner_join_keys_unique : forall a rest res,
+  first_is_reference (o_hdr a) (map o_hdr rest) -> Forall wf_operand (a :: rest) ->
+  d_join JInner None (a :: rest) = Ok res -> uniq_keys (d_rows res) = true.
+Proof. exact inner_join_keys_unique_n. Qed.
 
 (* ---------------------------------------------------------------- order independence (inner, left, cross) *)
 Theorem C04_permutation_invariance : forall k us ops ops' res,
